@@ -298,6 +298,12 @@ func runCache(c *CCase) (st cStats, err error) {
 		if h.c.Size() != sum || h.c.Nodes() != live {
 			return st, fmt.Errorf("phase %d barrier: Size()=%d Nodes()=%d, but %d live values with total charge %d", pi, h.c.Size(), h.c.Nodes(), live, sum)
 		}
+		// no handle is outstanding, so every deletion callback registered so far is due ("executed if such node
+		// doesn't exist or once the node is released"): a deleted entry that the replacement policy still keeps
+		// would go on being served and its callback would wait for an unrelated eviction
+		if a, b := atomic.LoadInt64(&h.delIssued), atomic.LoadInt64(&h.delRan); a != b {
+			return st, fmt.Errorf("phase %d barrier: %d deletion callbacks were registered and every handle has been released, but only %d ran", pi, a, b)
+		}
 	}
 	gs := h.c.GetStats()
 	st.grow, st.shrink = gs.GrowCount, gs.ShrinkCount
